@@ -1,5 +1,6 @@
 use crate::engine::schema::errors::SchemaError;
 use crate::engine::schema::registry::SchemaRecord;
+use crate::engine::schema::store::types::MAX_RECORD_LEN_BYTES;
 use crc32fast::Hasher as Crc32Hasher;
 use std::fs::File;
 use std::io::Write;
@@ -15,6 +16,15 @@ pub fn compute_crc32(data: &[u8]) -> u32 {
 pub fn write_record(file: &mut File, record: &SchemaRecord) -> Result<(), SchemaError> {
     let encoded =
         bincode::serialize(record).map_err(|e| SchemaError::SerializationFailed(e.to_string()))?;
+
+    // The reader stops at a longer record, hiding it and every record after it
+    if encoded.len() > MAX_RECORD_LEN_BYTES as usize {
+        return Err(SchemaError::SerializationFailed(format!(
+            "schema record is {} bytes, the limit is {} bytes",
+            encoded.len(),
+            MAX_RECORD_LEN_BYTES
+        )));
+    }
 
     file.write_all(&(encoded.len() as u32).to_le_bytes())
         .map_err(|e| SchemaError::IoWriteFailed(e.to_string()))?;
